@@ -6,6 +6,7 @@ package interp
 // until that element arrives (or the reader reports an error / EOF).
 
 import (
+	"fmt"
 	"go/types"
 )
 
@@ -149,4 +150,97 @@ func (i *interpreter) genericReadAll(r iface) value {
 		}
 	}
 	panic(engineError{"io.ReadAll: more than 4096 rounds"})
+}
+
+// copyReaderToFile is io.Copy(file, r) for an ordinary interpreted reader r
+// (a part decoder over a pipe): the reader's real Read is called; what arrives
+// must be either concrete bytes (a byte blob is written) or content bytes —
+// content_<tag>(offset) terms at consecutive concrete offsets, as harness
+// source files produce them — which are written as a tagged segment, so that
+// the MD5 model still recognises a complete version.
+func (i *interpreter) copyReaderToFile(dh *fhandle, dstv value, src iface) value {
+	total := int64(0)
+	for rounds := 0; rounds < 4096; rounds++ {
+		buf := make([]value, 16)
+		for k := range buf {
+			buf[k] = uint8(0)
+		}
+		res, ok := i.callMethod(src, "Read", buf)
+		if !ok {
+			panic(engineError{"io.Copy: source without Read"})
+		}
+		tup := res.(tuple)
+		n, okn := tup[0].(int)
+		if !okn {
+			panic(engineError{"io.Copy: symbolic read length"})
+		}
+		if n > 0 {
+			chunk := buf[:n]
+			tag, off, isContent := contentRun(chunk)
+			switch {
+			case isContent:
+				pos, okp := dh.pos.(int64)
+				if !okp {
+					panic(engineError{"io.Copy of content bytes at a symbolic file offset"})
+				}
+				i.fsOp("write", dh.path, true)
+				i.writeSeg(dh.node, pos, int64(n), tag, off)
+				dh.pos = pos + int64(n)
+			case !anySymByte(chunk):
+				externals["(*os.File).Write"](i.curFrame, []value{dstv.(iface).v, chunk})
+			default:
+				panic(engineError{"io.Copy into a file: bytes that are neither concrete nor content of one version"})
+			}
+			total += int64(n)
+		}
+		if e, ok := tup[1].(iface); ok && e.t != nil {
+			if str, ok := i.callStringMethod(e); ok && str == "EOF" {
+				return tuple{total, iface{}}
+			}
+			return tuple{total, e}
+		}
+	}
+	panic(engineError{"io.Copy: more than 4096 rounds"})
+}
+
+// contentRun: are the bytes content_<tag>(o), content_<tag>(o+1), ... ?
+func contentRun(b []value) (tag string, off int64, ok bool) {
+	for k, x := range b {
+		sv, isSym := x.(symv)
+		if !isSym || sv.t.op != "uf" || len(sv.t.args) != 1 || !sv.t.args[0].IsConst() || len(sv.t.name) < 9 || sv.t.name[:8] != "content_" {
+			return "", 0, false
+		}
+		t, o := sv.t.name[8:], int64(sv.t.args[0].cval)
+		if k == 0 {
+			tag, off = t, o
+		} else if t != tag || o != off+int64(k) {
+			return "", 0, false
+		}
+	}
+	return tag, off, len(b) > 0
+}
+
+// copyReaderToMD5 is io.Copy(hash, r) for an ordinary interpreted reader:
+// everything is read; content bytes of one version from offset 0 to its
+// declared size hash to "md5-<tag>", anything else to a fresh unequal value.
+func (i *interpreter) copyReaderToMD5(st *md5state, src iface) value {
+	res := i.genericReadAll(src).(tuple)
+	all, _ := res[0].([]value)
+	fs := i.world.FS()
+	tag, off, ok := contentRun(all)
+	full, known := fs.versions[tag]
+	if ok && known && off == 0 {
+		if fz, isC := full.(int64); isC && fz == int64(len(all)) {
+			st.hex = "md5-" + tag
+			return tuple{int64(len(all)), res[1]}
+		}
+	}
+	if !anySymByte(all) {
+		s, _ := symstr{all}.concrete()
+		st.hex = "md5s-" + s
+		return tuple{int64(len(all)), res[1]}
+	}
+	fs.badHash++
+	st.hex = fmt.Sprintf("md5-other-%d", fs.badHash)
+	return tuple{int64(len(all)), res[1]}
 }
